@@ -8,10 +8,11 @@ from harness import gen
 from harness.framework import Suite
 
 PID = "C03"
-LEAN_MODS = ["SwcVerif.Props.C03"]
+LEAN_MODS = ["SwcVerif.Props.C03", "SwcVerif.Props.C03Cat"]
 THEOREMS = [
     "C03.wf_of_sorted", "C03.sort_wf", "C03.subtree_wf", "C03.prune_wf", "C03.redirect_wf", "C03.redirect_nosort_root_position",
     "C03.op_wf", "C03.pipeline_wf", "C03.inputs_untouched", "Represent.wf_represented", "Represent.represented_wf", "Represent.wf_subtree_represented",
+    "C03.op2_wf", "C03.pipeline2_wf",
 ]
 TRUSTED = ["the per-operation models of C05 (sort), C06 (subtree / prune / cut), C07 (re-root, concatenate), C09 (heap: copies allocate), C12 (transforms touch only x, y, z), "
            "each tied to the code by its own correspondence suite; this property's suite checks the composition on the real library"]
